@@ -143,6 +143,11 @@ CONFIGS['cstate_class'] = dict(_ST, hkind='class')
 CONFIGS['cstate_implicit'] = dict(_ST, hkind='fn', also_class=True,
                                   implicit=True, connects=[['/', '/a']],
                                   max_sid=3, auths=['val'])
+# reconnection enabled: after a loss of the transport the client is
+# disconnected on every namespace at once, while the reconnection effort
+# (C10) has not even begun
+CONFIGS['cstate_rc'] = dict(_ST, hkind='fn', max_sid=3, auths=['val'],
+                            reconnection=True)
 CONFIGS['cstate_quick'] = dict(_ST, hkind='fn', max_sid=3,
                                auths=['val'])
 _AK = dict(ns_h=['/', '/a'], ns_all=['/', '/a'], connects=[['/', '/a']],
@@ -163,6 +168,9 @@ CONFIGS['cacks_quick'] = dict(_AK, hkind='fn', ns_h=['/'],
                                    'e_tup2', 'e_bin', 'e_unh', 'e_raise'],
                               ids=[-1, 0, 7],
                               ack_args=[[], ['v1', 'v2']])
+CONFIGS['cacks_quick_class'] = dict(CONFIGS['cacks_quick'], hkind='class',
+                                    evs=['e_none', 'e_v', 'e_h', 'e_tup2',
+                                         'e_bin', 'e_unh', 'e_raise'])
 
 # larger budgets, explored by seeded random histories only (walks)
 CONFIGS['cstate_big'] = dict(_ST, hkind='fn', max_sid=12, max_ack=4)
